@@ -525,6 +525,7 @@ class SurfaceContainer(AbstractContainer):
     @delta_u.setter
     def delta_u(self, value):
         self._delta_setter_common(0, value)
+        self.reset()
 
     @property
     def delta_v(self):
@@ -548,6 +549,7 @@ class SurfaceContainer(AbstractContainer):
     @delta_v.setter
     def delta_v(self, value):
         self._delta_setter_common(1, value)
+        self.reset()
 
     @property
     def sample_size_u(self):
@@ -567,6 +569,7 @@ class SurfaceContainer(AbstractContainer):
     @sample_size_u.setter
     def sample_size_u(self, value):
         self._sample_size_setter_common(0, value)
+        self.reset()
 
     @property
     def sample_size_v(self):
@@ -586,6 +589,7 @@ class SurfaceContainer(AbstractContainer):
     @sample_size_v.setter
     def sample_size_v(self, value):
         self._sample_size_setter_common(1, value)
+        self.reset()
 
     @property
     def tessellator(self):
@@ -895,6 +899,7 @@ class VolumeContainer(AbstractContainer):
     @delta_u.setter
     def delta_u(self, value):
         self._delta_setter_common(0, value)
+        self.reset()
 
     @property
     def delta_v(self):
@@ -918,6 +923,7 @@ class VolumeContainer(AbstractContainer):
     @delta_v.setter
     def delta_v(self, value):
         self._delta_setter_common(1, value)
+        self.reset()
 
     @property
     def delta_w(self):
@@ -941,6 +947,7 @@ class VolumeContainer(AbstractContainer):
     @delta_w.setter
     def delta_w(self, value):
         self._delta_setter_common(2, value)
+        self.reset()
 
     @property
     def sample_size_u(self):
@@ -960,6 +967,7 @@ class VolumeContainer(AbstractContainer):
     @sample_size_u.setter
     def sample_size_u(self, value):
         self._sample_size_setter_common(0, value)
+        self.reset()
 
     @property
     def sample_size_v(self):
@@ -979,6 +987,7 @@ class VolumeContainer(AbstractContainer):
     @sample_size_v.setter
     def sample_size_v(self, value):
         self._sample_size_setter_common(1, value)
+        self.reset()
 
     @property
     def sample_size_w(self):
@@ -998,6 +1007,7 @@ class VolumeContainer(AbstractContainer):
     @sample_size_w.setter
     def sample_size_w(self, value):
         self._sample_size_setter_common(2, value)
+        self.reset()
 
     def render(self, **kwargs):
         """ Renders the volumes.
